@@ -16,6 +16,7 @@ from aws_durable_execution_sdk_python.exceptions import (
 )
 from aws_durable_execution_sdk_python.lambda_service import (
     ErrorObject,
+    OperationStatus,
     OperationUpdate,
 )
 from aws_durable_execution_sdk_python.logger import Logger, LogInfo
@@ -152,8 +153,13 @@ class StepOperationExecutor(OperationExecutor[T]):
         ):
             return CheckResult.create_is_ready_to_execute(checkpointed_result)
 
-        # Create START checkpoint if not exists
-        if not checkpointed_result.is_existent():
+        # Create START checkpoint if not exists. An AT_MOST_ONCE retry attempt (status READY)
+        # also records its START before running, otherwise an invocation that dies inside the
+        # attempt would find READY again on replay and run the same attempt a second time.
+        if not checkpointed_result.is_existent() or (
+            checkpointed_result.status is OperationStatus.READY
+            and self.config.step_semantics is StepSemantics.AT_MOST_ONCE_PER_RETRY
+        ):
             start_operation: OperationUpdate = OperationUpdate.create_step_start(
                 identifier=self.operation_identifier,
             )
